@@ -25,18 +25,27 @@ def fitter_state(f):
 def install(ctx):
     from sedfitter.fit import Fitter
 
+    def safe_state(f):
+        try:
+            return fitter_state(f)
+        except Exception:          # internals renamed / absent: only an observation point is lost
+            return None
+
     def fit_snapshot(self, source):
-        return (probe.canon_source(source), fitter_state(self))
+        return (probe.canon_source(source), safe_state(self))
 
     def fit_post(self, source, OLD, result):
         ctx.event('Fitter.fit:post')
         s0, f0 = OLD.S
-        s1, f1 = probe.canon_source(source), fitter_state(self)
+        s1, f1 = probe.canon_source(source), safe_state(self)
         for k in s0:
             same = probe.same(s0[k], s1[k]) if isinstance(s0[k], np.ndarray) else s0[k] == s1[k]
             if not same:
                 ctx.violation('fit-modifies-source', 'Fitter.fit modified the source it was given (%s)' % k,
                               {'before': s0, 'after': s1})
+        if f0 is None or f1 is None:
+            ctx.event('fitter-state-unreadable')
+            f0 = f1 = {}
         for k in f0:
             same = probe.same(f0[k], f1[k]) if isinstance(f0[k], np.ndarray) or f0[k] is None else f0[k] == f1[k]
             if not same:       # not part of the statement (a cache would be legitimate): history pairs decide
@@ -221,12 +230,7 @@ def run(ctx):
                     r0, r1 = by_name(i0), by_name(i1)
                     compare_fluxes(ctx, 'model-permutation-changes-fit', 'permuting the models inside the package changed a model\'s fit',
                                    fluxes_by_name(i0), fluxes_by_name(i1), slice(None), dict(mode=mode, order=order), tol=50e-9 / max(cond, 1e-3) * max(1.0, float(np.max(np.abs(k)))))
-                    if mode == '2d':
-                        bad = [n for n in r0 if not all((a == b) or (a != a and b != b) for a, b in zip(r0[n], r1.get(n, (None,) * 3)))]
-                        if bad:
-                            ctx.violation('model-permutation-changes-fit', 'permuting the models inside the package changed a model\'s fit',
-                                          dict(mode=mode, order=order, model=bad[0], first=r0[bad[0]], second=r1.get(bad[0])))
-                    else:
+                    if True:
                         compare(ctx, 'model-permutation-changes-fit', 'permuting the models inside the package changed a model\'s fit',
                                 r0, r1, max(cond, 1e-3), wsum, dict(mode=mode, order=order))
                     ctx.event('pair:model-permutation')
@@ -252,10 +256,12 @@ def run(ctx):
                         if live_src is None or len(live_src.flux) != len(f2) or not probe.same(np.asarray(live_src.valid), v):
                             live_src = gen.build_source('s', v, f2, e2)
                         else:
-                            # the same Source object as for the previous constant, its arrays edited in place (s.flux[:] = ..., as
-                            # s.flux *= c would): it has been fitted before, nothing remembered from then may be used
-                            live_src.flux[:] = f2
-                            live_src.error[:] = e2
+                            # the same Source object as for the previous constant, its arrays changed with augmented assignment (s.flux *= c:
+                            # same array object, assigned back through the attribute): it has been fitted before, nothing remembered from then may be used
+                            live_src.flux -= live_src.flux          # (x - x = 0 and 0 + y = y are exact: the arrays end up holding f2, e2)
+                            live_src.flux += f2
+                            live_src.error -= live_src.error
+                            live_src.error += e2
                             ctx.event('source-arrays-edited-in-place')
                         i1 = base.fit(live_src)
                         r1 = by_name(i1)
@@ -357,9 +363,14 @@ def history_block(ctx, rng, st, sources, mode, iset, fkw, other=None, tag=''):
             def mk():
                 return gen.make_fitter(st['bn'], st['theta'], st['dir'], st['law'], (-5.0, 40.0), st['dr'], **fkw)
             if fkw.get('remove_resolved'):
-                ext = np.asarray(mk().models.extended)
-                if ext.any() and len(set(tuple(ext[:, :, f].ravel()) for f in range(ext.shape[2]))) > 1:
+                try:
+                    ext = np.asarray(mk().models.extended)
+                    if ext.any() and len(set(tuple(ext[:, :, f].ravel()) for f in range(ext.shape[2]))) > 1:
+                        ctx.regime('history:remove_resolved-band-dependent')
+                except Exception:
+                    # the mask is an internal: the set-up (steep band-dependent profiles) is what makes the exclusion band-dependent
                     ctx.regime('history:remove_resolved-band-dependent')
+                    ctx.event('resolved-mask-unreadable')
             target = sources[0]
             fresh = mk()
             want = probe.canon_info(fresh.fit(gen.build_source('t', *target[:3])))
@@ -390,13 +401,19 @@ def history_block(ctx, rng, st, sources, mode, iset, fkw, other=None, tag=''):
                 ft = shared if ih % 2 else mk()
                 if ih % 5 == 0 and len(h) < 6:
                     h = tuple(h) + (len(others) - 1 - (ih // 5) % 2,)
-                for j in h:
+                try:
+                  for j in h:
                     ft.fit(gen.build_source('o%d' % j, *others[j][:3]))
                     if other is not None and rng.random() < 0.5:      # a second live fitter (another package, law, filters) used in between
                         of, osrc = other
                         of.fit(gen.build_source('x', *osrc[int(rng.integers(len(osrc)))][:3]))
                         ctx.event('history:two-live-fitters')
-                got = probe.canon_info(ft.fit(gen.build_source('t', *target[:3])))
+                  got = probe.canon_info(ft.fit(gen.build_source('t', *target[:3])))
+                except Exception as exc:
+                    # the same sources are fitted without complaint by a fresh fitter: a raise here depends on the history
+                    ctx.raised(exc, 'history-dependent-fit:raised', 'a fit raised on a fitter that had fitted other sources before (a fresh fitter fits the same source): %r' % (exc,),
+                               dict(mode=mode, history=list(map(int, h)), fitter_options=fkw, package=tag or 'v1'))
+                    continue
                 diffs = probe.same_canon(want, got)
                 if diffs:
                     ctx.violation('history-dependent-fit', 'a fitter returned a different result for a source after fitting other sources first',
